@@ -662,11 +662,17 @@ impl Version {
 
         for level in self.iter_levels() {
             // Run count
-            #[expect(
-                clippy::cast_possible_truncation,
-                reason = "there are always less than 256 runs"
-            )]
-            writer.write_u8(level.len() as u8)?;
+            //
+            // NOTE: The run count is stored in a single byte;
+            // a level with more runs must be rejected instead of being silently truncated
+            // (which would make the written version undecodable, or drop its tables)
+            let run_count = u8::try_from(level.len()).map_err(|_| {
+                std::io::Error::new(
+                    std::io::ErrorKind::InvalidInput,
+                    "too many runs in level (max 255), compaction is required",
+                )
+            })?;
+            writer.write_u8(run_count)?;
 
             for run in level.iter() {
                 // Table count
